@@ -162,7 +162,14 @@ fn exec_op(fields: &[&str]) -> String {
     if rest.len() != 4 {
         return "bad-case".to_string();
     }
-    let def = unescape(rest[0]);
+    let mut def = unescape(rest[0]);
+    // `Plain::op` filters the definition through `parse_proj`
+    if spec.kind.starts_with("plain") {
+        match parse_proj(&def) {
+            Ok(d) => def = d,
+            Err(e) => return format!("err {}", err_class(&e)),
+        }
+    }
     let mode = rest[1];
     let dir = dir_of(rest[2]);
     let mut data = parse_data(rest[3]);
@@ -215,6 +222,10 @@ pub fn exec_line(line: &str) -> String {
     match fields[0] {
         "OP" => exec_op(&fields[1..]),
         "TOK" => exec_tok(&fields[1..]),
+        "PROJ" => match parse_proj(&unescape(fields.get(1).unwrap_or(&""))) {
+            Ok(r) => format!("ok {}", escape(&r)),
+            Err(e) => format!("err {}", err_class(&e)),
+        },
         k if k.starts_with("S_") => crate::oracles::exec_oracle(k, &fields[1..]),
         _ => "bad-case".to_string(),
     }
